@@ -242,7 +242,7 @@ def plan(tier, seed):
         ids = [ids[i] for i in sorted(rng.choice(len(ids), size=min(160, len(ids)), replace=False).tolist())]
         nsh, budget, per = 16, 150, 4
     else:
-        nsh, budget, per = 64, 1500, len(ALL_T)
+        nsh, budget, per = 64, 500, len(ALL_T)
     shards = [{"kind": "catalog", "ids": ids[i::nsh], "budget_s": budget, "per": per, "seed": seed} for i in range(nsh)]
     shards += [{"kind": "programs", "shard": i, "seed": seed, "examples": 5 if tier == "quick" else 40, "per": per} for i in range(8 if tier == "quick" else 32)]
     return shards
